@@ -2,6 +2,8 @@
 from .. import gen, oracle
 from ..scheck import SCheck
 from ..oracle import Finding
+from ..campaign import run_step, summarize
+from ..fcheck import errnos_for, robust_plan
 
 
 def parse_ranges(s):
@@ -15,18 +17,23 @@ def parse_ranges(s):
 
 
 def covered(segs, ranges):
-    """every byte of every seg lies in some range"""
+    """every byte of every seg lies in some range; returns the first uncovered offset or None"""
+    import bisect
+    rs = sorted(ranges)
+    starts = [x for x, _ in rs]
+    # furthest end among ranges starting at or before index i (ranges may overlap when the implementation is wrong)
+    far = []
+    m = -1
+    for _, y in rs:
+        m = max(m, y)
+        far.append(m)
     for a, b in segs:
         pos = a
         while pos < b:
-            hit = None
-            for x, y in ranges:
-                if x <= pos < y:
-                    hit = y
-                    break
-            if hit is None:
+            i = bisect.bisect_right(starts, pos) - 1
+            if i < 0 or far[i] <= pos:
                 return pos
-            pos = hit
+            pos = far[i]
     return None
 
 
@@ -47,17 +54,25 @@ class C19(SCheck):
     K = {"quick": 1, "thorough": 1}
     needs_probe = True
     technique = "deterministic simulation of an API probe calling libfs under emulated FIEMAP paging variants and native SEEK_DATA/SEEK_HOLE; data map read back from the file as oracle; seeded sampling for merge_extents"
-    rule = ("case = file layout with 0, 1, 31, 32, 33 .. 100 data runs, data at the very start/end, sizes not multiples of 4 KiB, x FIEMAP answered "
+    rule = ("case = file layout with 0, 1, 31, 32, 33 .. 100 data runs (and, once per 150 cases, more than 8192 extents), data at the very start/end, sizes not multiples of 4 KiB, x FIEMAP answered "
             "by the simulated kernel (whole extents / split into adjacent 4-8 KiB extents / last extent rounded past EOF / EOPNOTSUPP) ; the "
             "probe prints map_extents, merge_extents(map_extents) and the next_sparse_segments walk; oracle: ranges ordered and non-overlapping "
             "and every data page of the file (SEEK_DATA map, all bytes non-zero by construction) lies inside a reported range; plus 40 seeded "
-            "sorted extent lists per case through merge_extents: output ordered, covers the union, begins/ends at input boundaries; "
+            "sorted extent lists per case through merge_extents; each case is also re-run with one errno (EIO, EINVAL, EOVERFLOW, EINTR, ENOMEM) at sampled lseek / FIEMAP calls: an error result is fine, a returned map must still cover all data: output ordered, covers the union, begins/ends at input boundaries; "
             "non-trivial = the file has at least one hole and one data run; distinct by (case, signature).  The 'exhaustive over a bounded "
             "universe' clause for merge_extents is NOT claimed: lists are sampled")
     assumptions = ["tmpfs reports data at 4 KiB page granularity", "FIEMAP emulation implements the ext4-checked contract of DESIGN Appendix A and nothing else"]
 
+    NFAULT = {"quick": 3, "thorough": 60}
+
+    def items(self, tier, seed):
+        for it in super().items(tier, seed):
+            it["nfault"] = self.NFAULT[tier]
+            yield it
+
     def gen_case(self, r, idx, tier):
         nruns = r.choice([0, 1, 2, 3, 5, 31, 32, 33, 40, 64, 65, 100])
+        huge = idx % 150 == 7  # more than 8192 extents: several hundred FIEMAP pages (one long data run reported as 4 KiB extents)
         pos = 0 if r.random() < 0.5 else 4096 * r.randrange(1, 300)
         runs = []
         for j in range(nruns):
@@ -73,11 +88,19 @@ class C19(SCheck):
                 pos -= cut
         elif r.random() < 0.3:
             pos += r.randrange(1, 4096)
+        if huge:
+            pos = 4096 * r.randrange(0, 3)
+            runs = [[pos, 4096 * r.randrange(8200, 8700), r.randrange(1, 1 << 30)]]
+            pos = runs[0][0] + runs[0][1] + 4096 * r.choice([0, 1, 300])
+            runs.append([pos, 4096 * r.randrange(1, 30), 77])
+            pos = runs[1][0] + runs[1][1]
         size = pos
         ops = [gen.f_op("file", size, runs=runs)]
         kernel = {}
         c = r.random()
-        if c < 0.75:
+        if huge:
+            kernel = {"fiemap": "emulate", "fiemap_split": 4096}
+        elif c < 0.75:
             kernel["fiemap"] = "emulate"
             if r.random() < 0.4:
                 kernel["fiemap_split"] = r.choice([4096, 8192])
@@ -114,8 +137,12 @@ class C19(SCheck):
             post = {e["p"]: e for e in res["post"]}
             if post.get("file", {}).get("h") != pre["file"].get("h"):
                 f.append(Finding("C19", "file-modified", "file", "the probed file changed"))
+            # a walk that ended in a reported error is incomplete by declaration: its partial list is not a claim
+            failed_tags = set(l.partition(" ")[0][:-4] for l in out.splitlines() if l.partition(" ")[0].endswith("-ERR"))
             for line in out.splitlines():
                 tag, _, rest = line.partition(" ")
+                if tag in failed_tags:
+                    continue
                 if tag in ("EXTENTS", "MERGED", "SEGMENTS"):
                     rg = parse_ranges(rest)
                     if not ordered(rg):
@@ -149,6 +176,31 @@ class C19(SCheck):
                 if any(a not in starts or b not in ends for a, b in outp):
                     f.append(Finding("C19", "merge-invents-boundary", "", "merge_extents(%s) = %s" % (inp, outp)))
         return f
+
+    def run_item(self, sim, item):
+        """after the fault-free run: one errno at sampled lseek / FIEMAP calls of the probe; libfs may then report an error, but a map it
+        does return must still cover every data byte"""
+        import random
+        rec = super().run_item(sim, item)
+        nf = item.get("nfault", 0)
+        if not nf:
+            return rec
+        case, plan = item["case"], item["plans"][0]
+        res, _, _ = run_step(sim, case, 0, plan, "sandbox")
+        sites = [ev for ev in res.get("events", []) if ev.get("site") is not None and (ev["c"] == "lseek" or (ev["c"] == "ioctl" and ev.get("req") == "FIEMAP"))]
+        rr = random.Random(plan["seed"] ^ 0x19)
+        cands = [(ev, e) for ev in sites for e in errnos_for(ev)]
+        rr.shuffle(cands)
+        for ev, e in cands[:nf]:
+            p2 = dict(plan, faults=[{"site": ev["site"], "errno": e}])
+            res2, v2, t2 = run_step(sim, case, 0, p2, "sandbox")
+            f2 = [x for x in self.evaluate(res2, v2, case, 0, t2, p2) if not x.cls.startswith("error:")]
+            for x in f2:
+                if x.prop == "C19" and x.cls.startswith("data-outside-ranges"):
+                    x.cls += ":after-" + ev["c"] + "-" + e
+            fired = any(x.get("fired") for x in res2["stats"].get("faults", []))
+            rec["runs"].append(summarize(res2, f2, robust_plan(p2, res2), {"nontrivial": bool(fired), "step": 0, "probes": {"fault:%s:%s" % (ev["c"], e): 1}}))
+        return rec
 
     def is_nontrivial(self, res, verdict, case):
         for e in res["pre"]:
